@@ -1003,7 +1003,7 @@ func execCheck(w []string) h.Result {
 // `for i := range a { … b[i] … }`: a shorter b is an index-out-of-range panic (Impl "panic"), a longer b is cut
 // silently. The model states both (Model/Bn256CheckSlices.lean, Props/C10GT.kyber_pairingCheck_lengths); no clause of
 // C10 speaks about unequal lengths and the only caller in /repo (bls.Verify) passes 2 and 2, so there is no property
-// oracle for the short-b case; for a longer b the answer must be the one for the first len(a) pairs (google reference).
+// oracle for unequal lengths (model comparison only); for equal lengths the answer must be bn256/google's.
 func execCheckL(w []string) h.Result {
 	res := h.Result{Class: "checkl", Nontrivial: true}
 	var g1s []g1raw
@@ -1046,7 +1046,9 @@ func execCheckL(w []string) h.Result {
 		res.Class += "-short-b"
 		return res
 	case len(g2s) > len(g1s):
+		// no clause of C10 says what a longer b must do (cut, as the code does, or refuse): model comparison only
 		res.Class += "-long-b"
+		return res
 	default:
 		res.Class += "-equal"
 	}
